@@ -72,7 +72,7 @@ static void export_mon(void)
     feat("npanels", g_mon.npanels); feat("nrelaxed", g_mon.nrelaxed); feat("upd_done", g_mon.updates_done); feat("upd_busy", g_mon.updates_busy);
     feat("min_slack", g_mon.min_slack); feat("tail_max", g_mon.tail_max); feat("prune_while_dfs", g_mon.prune_while_dfs);
     feat("lusup_allocs", g_mon.lusup_allocs); feat("dyn_setmaps", g_mon.dyn_setmaps);
-    feat("takes_with_busy", g_mon.takes_with_busy); feat("singular_events", g_mon.singular_events); feat("no_candidate", g_mon.no_candidate); feat("tight_slots", g_mon.tight_slots); feat("dfs_steps", g_mon.dfs_steps); feat("prune_steps", g_mon.prune_steps); feat("prune_during_read", g_mon.prune_during_read); feat("double_prune", g_mon.double_prune); feat("mutex_waits", g_mon.mutex_waits); feat("thr_start", g_mon.thread_starts); feat("thr_exit", g_mon.thread_exits);
+    feat("takes_with_busy", g_mon.takes_with_busy); feat("singular_events", g_mon.singular_events); feat("no_candidate", g_mon.no_candidate); feat("tight_slots", g_mon.tight_slots); feat("dfs_steps", g_mon.dfs_steps); feat("prune_steps", g_mon.prune_steps); feat("prune_during_read", g_mon.prune_during_read); feat("double_prune", g_mon.double_prune); feat("mutex_waits", g_mon.mutex_waits); feat("long_stalls", g_mon.long_stalls); feat("thr_start", g_mon.thread_starts); feat("thr_exit", g_mon.thread_exits);
 }
 static void emit(const char *v, const char *sig, const char *detail)
 {
